@@ -18,7 +18,7 @@ ASSUMPTIONS = ['fragments end with a newline when the separator is empty']
 def explore(ctx, depth):
     import docrun
     import kernpy as kp
-    cases = docrun.make_cases(ctx, 15 if depth == 'quick' else 120, kern_only=True, profiles=('core',), comments=False, max_measures=5)
+    cases = docrun.make_cases(ctx, 15 if depth == 'quick' else 120, kern_only=True, profiles=('core',), comments=False, max_measures=5, double_bars=True)
     rng = ctx.rng
     docrun.fill_views(ctx, cases, 'kern', docrun.ALLC, '_v')
     for case in cases:
@@ -39,9 +39,13 @@ def explore(ctx, depth):
         for cuts in cutsets:
             bounds = [0] + cuts + [len(lines)]
             frags = ['\n'.join(lines[a:b]) for a, b in zip(bounds, bounds[1:])]
-            for sep in ('\n', ''):
-                contents = [f + '\n' for f in frags] if sep == '' else frags
-                inp = {'text': case.text, 'cut_at_lines': cuts, 'separator': sep}
+            variants = [('\n', frags, 'lf'), ('', [f + '\n' for f in frags], 'lf')]
+            if len(cuts) >= 1 and (depth == 'thorough' or len(cuts) <= 2):
+                # fragments as they come from Windows files: CRLF line ends and an empty line at the end of every fragment but the last
+                crlf = [f.replace('\n', '\r\n') + ('\r\n\r\n' if k < len(frags) - 1 else '\r\n') for k, f in enumerate(frags)]
+                variants.append(('', crlf, 'crlf+blank'))
+            for sep, contents, flavour in variants:
+                inp = {'text': case.text, 'cut_at_lines': cuts, 'separator': sep, 'line_ends': flavour}
                 def run():
                     d, idx = kp.concat(contents, separator=sep)
                     return d, [list(p) for p in idx]
